@@ -22,10 +22,21 @@
 //	regrun <n> / regadd <n> / regown <n>                                                 => ran|runerr / added|refused / ok
 //	closereq <n> <p>          CloseProxy up to pxyManager.Del                            => deleted | noop | connclosed
 //	closefin <n>                                                                         => ok
-//	randid                    fact check of util.RandID                                  => ok | …
+//	randid                    fact check of util.RandID (one call)                       => ok | …
+//	randconc <g> <k>          g goroutines × k calls of the real util.RandID, interleaved with runtime.Gosched
+//	                          => ids:<id,…> (g·k ≤ 4096: all ids, Lean decides) | sum:n=<g·k>;bad=<malformed ids>;dup=<repeated ids>
+//	freshburst <m> <bg>       m logins WITHOUT run id at once on the real Service (not gated), while bg goroutines draw
+//	                          ids from util.RandID the way the plugin manager / nat hole controller do; then all m
+//	                          connections are closed and the op waits (event: ctl.afterDel) until they are gone
+//	                          => ids:<run ids of the LoginResps>;own=<ids that designate their own session in ctlsByRunID>;
+//	                             other=<run ids that were also handed out to a background caller>;bgdup=<repeated background ids>;bg=<n>
 //
-// every result (except reset/randid) is followed by "|run[rid=n,…]names[p=n,…]" (the real tables);
-// an op whose goroutine is not where the op needs it answers "disabled".
+// a fresh `login` answers fresh:<the generated id>; every result (except reset/randid/randconc) is followed by
+// "|run[rid=n,…]names[p=n,…]" (the real tables); an op whose goroutine is not where the op needs it answers "disabled".
+//
+// Every wait is event driven and bounded by sessTimeout (2 s; halved by every expiry in the process, down to 125 ms).  An
+// expired wait answers timeout / blocked / …|dumpblocked and WEDGES the world: every further op up to the next
+// reset answers "wedged" at once (a violation run must not spend minutes waiting for gates nobody will reach).
 package main
 
 import (
@@ -36,6 +47,7 @@ import (
 	"io"
 	"math/rand"
 	"net"
+	"runtime"
 	"sort"
 	"strconv"
 	"strings"
@@ -52,14 +64,18 @@ import (
 )
 
 var (
-	sessTimeout  = 3 * time.Second
+	sessTimeout  = 2 * time.Second // upper bound of every single wait
 	sessTimeouts = 0
 )
 
+const sessFullIDs = 4096 // randconc: up to this many ids travel to the Lean driver in full
+
+// every expiry halves the bound for the rest of the process (2 s, 1 s, … down to 125 ms): an expiry is
+// already a disagreement with the model, and a tree that produces them produces them in most worlds
 func sessTimedOut() {
 	sessTimeouts++
-	if sessTimeouts >= 3 {
-		sessTimeout = 200 * time.Millisecond
+	if sessTimeout > 125*time.Millisecond {
+		sessTimeout /= 2
 	}
 }
 
@@ -73,6 +89,7 @@ type sessClient struct {
 	n            int
 	conn         net.Conn
 	ridStr       string
+	fresh        bool
 	msgs         []msg.Message
 	readerEOF    bool
 	started      bool
@@ -96,7 +113,10 @@ type sessWorld struct {
 	parked  map[string]*sessGor
 	clients map[int]*sessClient
 	ridNum  map[string]int // actual run id -> number
-	seenIDs map[string]bool
+	wedged  bool           // a bounded wait expired: nothing more is driven in this world
+
+	burstSeq int
+	burstDel int // ctl.afterDel events of sessions of the current burst
 }
 
 var sessW *sessWorld
@@ -116,6 +136,25 @@ func sessParseHost(h string) (int, int, bool) {
 	n, err1 := strconv.Atoi(h[1:i])
 	g, err2 := strconv.Atoi(h[i+1:])
 	return n, g, err1 == nil && err2 == nil
+}
+
+func sessBurstHost(i, seq int) string {
+	return "b" + strconv.Itoa(i) + "q" + strconv.Itoa(seq) + "g" + strconv.Itoa(sessGeneration)
+}
+
+// "b<i>q<seq>g<gen>" -> seq, gen
+func sessParseBurstHost(h string) (int, int, bool) {
+	if !strings.HasPrefix(h, "b") {
+		return 0, 0, false
+	}
+	i, j := strings.Index(h, "q"), strings.Index(h, "g")
+	if i < 0 || j < i {
+		return 0, 0, false
+	}
+	_, err0 := strconv.Atoi(h[1:i])
+	q, err1 := strconv.Atoi(h[i+1 : j])
+	g, err2 := strconv.Atoi(h[j+1:])
+	return q, g, err0 == nil && err1 == nil && err2 == nil
 }
 
 func sessKind(point string) string {
@@ -139,6 +178,18 @@ func (w *sessWorld) signal() {
 
 func (w *sessWorld) gate(point string, keys []string) {
 	if len(keys) < 2 {
+		return
+	}
+	if bq, bg, ok := sessParseBurstHost(keys[1]); ok {
+		// sessions of a burst are not parked; the end of their life is an event the burst op waits for
+		if point == "ctl.afterDel" && bg == w.gen {
+			w.mu.Lock()
+			if bq == w.burstSeq {
+				w.burstDel++
+			}
+			w.mu.Unlock()
+			w.signal()
+		}
 		return
 	}
 	hn, hg, hok := sessParseHost(keys[1])
@@ -266,7 +317,13 @@ func sessClose() {
 	}
 	verifhook.Set(nil)
 	if w.svr != nil {
-		w.svr.Close()
+		// bounded: a wedged world may hold a lock Close needs until its released goroutines have unwound
+		closed := make(chan struct{})
+		go func() { w.svr.Close(); close(closed) }()
+		select {
+		case <-closed:
+		case <-time.After(sessTimeout):
+		}
 	}
 	if w.cancel != nil {
 		w.cancel()
@@ -278,7 +335,7 @@ func sessReset() {
 	sessClose()
 	sessGeneration++
 	w := &sessWorld{gen: sessGeneration, ev: make(chan struct{}, 1), parked: map[string]*sessGor{}, clients: map[int]*sessClient{},
-		ridNum: map[string]int{}, seenIDs: map[string]bool{}}
+		ridNum: map[string]int{}}
 	var lastErr error
 	for attempt := 0; attempt < 5; attempt++ {
 		cfg := &v1.ServerConfig{}
@@ -289,6 +346,8 @@ func sessReset() {
 		cfg.Complete()
 		cfg.Transport.HeartbeatTimeout = -1
 		cfg.UserConnTimeout = 1
+		// one certificate per process instead of an RSA key per NewService (150 ms per reset)
+		cfg.Transport.TLS.CertFile, cfg.Transport.TLS.KeyFile = siteCert()
 		svr, err := server.NewService(cfg)
 		if err != nil {
 			lastErr = err
@@ -342,8 +401,29 @@ func sessNameNum(p string) int {
 	return 9999
 }
 
-func (w *sessWorld) dump() string {
-	byRun, names := w.svr.VerifSessDump()
+// the real tables; bounded (a goroutine blocked inside ControlManager.Add holds the lock the dump needs)
+func (w *sessWorld) tables() (map[string]string, map[string]string, bool) {
+	type t struct{ a, b map[string]string }
+	ch := make(chan t, 1)
+	go func() {
+		a, b := w.svr.VerifSessDump()
+		ch <- t{a, b}
+	}()
+	tm := time.NewTimer(sessTimeout)
+	defer tm.Stop()
+	select {
+	case x := <-ch:
+		return x.a, x.b, true
+	case <-tm.C:
+		return nil, nil, false
+	}
+}
+
+func (w *sessWorld) dump() (string, bool) {
+	byRun, names, ok := w.tables()
+	if !ok {
+		return "", false
+	}
 	w.mu.Lock()
 	defer w.mu.Unlock()
 	type kv struct{ k, v int }
@@ -363,7 +443,7 @@ func (w *sessWorld) dump() string {
 		}
 		return strings.Join(out, ",")
 	}
-	return "run[" + f(rs) + "]names[" + f(ns) + "]"
+	return "run[" + f(rs) + "]names[" + f(ns) + "]", true
 }
 
 func (w *sessWorld) reader(c *sessClient) {
@@ -440,17 +520,234 @@ func sessExec(tok []string) string {
 	if tok[0] == "randid" {
 		return sessRandIDFact()
 	}
+	if tok[0] == "randconc" {
+		if len(tok) < 3 {
+			return "badop"
+		}
+		return sessRandConc(atoi(tok[1]), atoi(tok[2]))
+	}
 	if sessW == nil {
 		sessReset()
 	}
 	w := sessW
+	if w.wedged {
+		return "wedged"
+	}
 	r := sessOp(w, tok)
-	return r + "|" + w.dump()
+	d, ok := w.dump()
+	if !ok {
+		sessTimedOut()
+		w.wedged = true
+		return r + "|dumpblocked"
+	}
+	return r + "|" + d
 }
 
+// a bounded wait expired
 func (w *sessWorld) timeout() string {
 	sessTimedOut()
+	w.wedged = true
 	return "timeout"
+}
+
+// an id as a trace token
+func sessIDTok(id string) string {
+	if id == "" || len(id) > 64 {
+		return hx(id)
+	}
+	for _, c := range id {
+		if !(c >= '0' && c <= '9' || c >= 'a' && c <= 'z' || c >= 'A' && c <= 'Z') {
+			return hx(id)
+		}
+	}
+	return id
+}
+
+// g goroutines call the real util.RandID k times each, yielding the processor in between in a pattern
+// that differs from goroutine to goroutine.  N random 64-bit ids are pairwise different unless the
+// generator is broken (probability of a collision ≤ N²/2⁶⁵).
+func sessRandConc(g, k int) string {
+	if g < 1 || k < 1 || g*k > 1<<20 {
+		return "badop"
+	}
+	out := make([][]string, g)
+	errs := make([]int, g)
+	start := make(chan struct{})
+	var wg sync.WaitGroup
+	for i := 0; i < g; i++ {
+		wg.Add(1)
+		go func(i int) {
+			defer wg.Done()
+			ids := make([]string, 0, k)
+			<-start
+			for j := 0; j < k; j++ {
+				id, err := util.RandID()
+				if err != nil {
+					errs[i]++
+				}
+				ids = append(ids, id)
+				if (j+i)%3 == 0 {
+					runtime.Gosched()
+				}
+			}
+			out[i] = ids
+		}(i)
+	}
+	close(start)
+	wg.Wait()
+	all := make([]string, 0, g*k)
+	for _, ids := range out {
+		all = append(all, ids...)
+	}
+	if len(all) <= sessFullIDs {
+		toks := make([]string, len(all))
+		for i, id := range all {
+			toks[i] = sessIDTok(id)
+		}
+		return "ids:" + strings.Join(toks, ",")
+	}
+	seen := make(map[string]int, len(all))
+	bad, dup := []string{}, []string{}
+	for _, id := range all {
+		if !sessIsHex16(id) && len(bad) < 4 {
+			bad = append(bad, sessIDTok(id))
+		}
+		seen[id]++
+		if seen[id] == 2 && len(dup) < 8 {
+			dup = append(dup, sessIDTok(id))
+		}
+	}
+	return fmt.Sprintf("sum:n=%d;bad=%s;dup=%s", len(all), strings.Join(bad, ","), strings.Join(dup, ","))
+}
+
+// m logins without run id at once on the real Service, bg goroutines drawing ids meanwhile
+func (w *sessWorld) burst(m, bg int) string {
+	if m < 1 || m > 100 || bg < 0 || bg > 16 {
+		return "badop"
+	}
+	type bclient struct {
+		conn net.Conn
+		host string
+		id   string
+		ack  bool
+		late bool
+	}
+	w.mu.Lock()
+	w.burstSeq++
+	seq := w.burstSeq
+	w.burstDel = 0
+	w.mu.Unlock()
+	cs := make([]*bclient, m)
+	start := make(chan struct{})
+	stop := make(chan struct{})
+	var wg, bwg sync.WaitGroup
+	bgIDs := make([][]string, bg)
+	for j := 0; j < bg; j++ {
+		bwg.Add(1)
+		go func(j int) {
+			defer bwg.Done()
+			ids := make([]string, 0, 4096)
+			<-start
+			for len(ids) < 50000 {
+				select {
+				case <-stop:
+					bgIDs[j] = ids
+					return
+				default:
+				}
+				id, _ := util.RandID()
+				ids = append(ids, id)
+			}
+			bgIDs[j] = ids
+		}(j)
+	}
+	lis := w.svr.VerifAuthInternalListener()
+	deadline := sessTimeout
+	for i := 0; i < m; i++ {
+		c1, c2 := net.Pipe()
+		b := &bclient{conn: c2, host: sessBurstHost(i, seq)}
+		cs[i] = b
+		wg.Add(1)
+		go func(b *bclient, c1 net.Conn) {
+			defer wg.Done()
+			<-start
+			if err := lis.PutConn(c1); err != nil {
+				return
+			}
+			_ = b.conn.SetDeadline(time.Now().Add(deadline))
+			lm := &msg.Login{Version: version.Full(), Hostname: b.host, Os: "linux", Arch: "amd64",
+				ClientSpec: msg.ClientSpec{AlwaysAuthPass: true}}
+			if err := msg.WriteMsg(b.conn, lm); err != nil {
+				return
+			}
+			rm, err := msg.ReadMsg(b.conn)
+			if err != nil {
+				if ne, ok := err.(net.Error); ok && ne.Timeout() {
+					b.late = true // the bound of the harness expired: no verdict
+				}
+				return
+			}
+			if lr, ok := rm.(*msg.LoginResp); ok && lr.Error == "" {
+				b.id, b.ack = lr.RunID, true
+			}
+			_ = b.conn.SetDeadline(time.Time{})
+		}(b, c1)
+	}
+	close(start)
+	wg.Wait()
+	close(stop)
+	bwg.Wait()
+	// at the peak: every acknowledged fresh login is what its own id designates
+	byRun, _, ok := w.tables()
+	if !ok {
+		return w.timeout()
+	}
+	for _, b := range cs {
+		if b.late {
+			for _, x := range cs {
+				x.conn.Close()
+			}
+			return w.timeout()
+		}
+	}
+	ids := []string{}
+	acked, own := 0, 0
+	runIDs := map[string]bool{}
+	for _, b := range cs {
+		if !b.ack {
+			continue
+		}
+		acked++
+		ids = append(ids, sessIDTok(b.id))
+		runIDs[b.id] = true
+		if byRun[b.id] == b.host {
+			own++
+		}
+	}
+	other, bgdup, nbg := 0, 0, 0
+	bgSeen := map[string]bool{}
+	for _, l := range bgIDs {
+		for _, id := range l {
+			nbg++
+			if bgSeen[id] {
+				bgdup++
+			}
+			bgSeen[id] = true
+		}
+	}
+	for id := range runIDs {
+		if bgSeen[id] {
+			other++
+		}
+	}
+	// every connection of the burst is closed; wait until the sessions are gone from the run-id table
+	for _, b := range cs {
+		b.conn.Close()
+	}
+	if w.waitAny(sessTimeout, func() bool { return w.burstDel >= acked }) < 0 {
+		return w.timeout()
+	}
+	return fmt.Sprintf("ids:%s;own=%d;other=%d;bgdup=%d;bg=%d", strings.Join(ids, ","), own, other, bgdup, nbg)
 }
 
 // the handler of session n has returned: a reply arrived, or (closed connection) the worker reached its first gate
@@ -461,6 +758,12 @@ func (w *sessWorld) handlerEnd(c *sessClient, reply func(msg.Message) bool, out 
 func sessOp(w *sessWorld, tok []string) string {
 	if len(tok) < 2 {
 		return "badop"
+	}
+	if tok[0] == "freshburst" {
+		if len(tok) < 3 {
+			return "badop"
+		}
+		return w.burst(atoi(tok[1]), atoi(tok[2]))
 	}
 	n := atoi(tok[1])
 	w.mu.Lock()
@@ -473,10 +776,21 @@ func sessOp(w *sessWorld, tok []string) string {
 		r, fresh := atoi(tok[2]), tok[3] == "1"
 		rid := ""
 		if !fresh {
+			if r >= 1000 {
+				// the id of a fresh session can only be presented once that session has been given one
+				// (sequences cut by the shrinker): nothing is done
+				w.mu.Lock()
+				oc := w.clients[r-1000]
+				known := oc != nil && oc.fresh && oc.ridStr != ""
+				w.mu.Unlock()
+				if !known {
+					return "disabled"
+				}
+			}
 			rid = w.ridString(r)
 		}
 		c1, c2 := net.Pipe()
-		c = &sessClient{n: n, conn: c2, old: -1}
+		c = &sessClient{n: n, conn: c2, old: -1, fresh: fresh}
 		w.mu.Lock()
 		w.clients[n] = c
 		w.mu.Unlock()
@@ -495,16 +809,12 @@ func sessOp(w *sessWorld, tok []string) string {
 		if !fresh {
 			return "ok"
 		}
+		// the generated id travels to the Lean driver, which evaluates the freshness predicate on it
 		w.mu.Lock()
 		defer w.mu.Unlock()
 		id := c.ridStr
-		okID := sessIsHex16(id) && !w.seenIDs[id]
-		w.seenIDs[id] = true
 		w.ridNum[id] = 1000 + n
-		if okID {
-			return "ok:fresh"
-		}
-		return "ok:stale"
+		return "fresh:" + sessIDTok(id)
 	}
 	if c == nil {
 		return "disabled"
@@ -514,7 +824,10 @@ func sessOp(w *sessWorld, tok []string) string {
 		if !w.isAt(n, "login", "ctl.beforeAdd") {
 			return "disabled"
 		}
-		byRun, _ := w.svr.VerifSessDump()
+		byRun, _, tabOK := w.tables()
+		if !tabOK {
+			return w.timeout()
+		}
 		old := -1
 		if h, ok := byRun[c.ridStr]; ok {
 			old = sessHostNum(h)
@@ -559,11 +872,21 @@ func sessOp(w *sessWorld, tok []string) string {
 		}
 		if w.waitAny(sessTimeout, w.at(n, "login", "ctl.beforeStart")) < 0 {
 			sessTimedOut()
+			w.wedged = true
 			return "blocked"
 		}
 		c.passedWait = true
 		return "ok"
 	case "start":
+		if c.earlyRel && !c.passedWait {
+			if oc := w.clients[c.old]; oc != nil && oc.doneRel {
+				// released early and the predecessor has closed its done channel: the waiter passes by itself
+				if w.waitAny(sessTimeout, w.at(n, "login", "ctl.beforeStart")) < 0 {
+					return w.timeout()
+				}
+				c.passedWait = true
+			}
+		}
 		if !w.isAt(n, "login", "ctl.beforeStart") {
 			return "disabled"
 		}
@@ -760,6 +1083,7 @@ type sessGenState struct {
 	byRun map[int]int
 	names map[int]int
 	next  int
+	burst bool // a freshburst was emitted in this world
 }
 
 func (g *sessGenState) op(format string, a ...any) {
@@ -768,7 +1092,7 @@ func (g *sessGenState) op(format string, a ...any) {
 }
 
 func (g *sessGenState) reset() {
-	g.s, g.byRun, g.names, g.next = map[int]*sessSim{}, map[int]int{}, map[int]int{}, 0
+	g.s, g.byRun, g.names, g.next, g.burst = map[int]*sessSim{}, map[int]int{}, map[int]int{}, 0, false
 	g.op("reset")
 }
 
@@ -790,6 +1114,11 @@ type sessCand struct {
 func (g *sessGenState) candidates() []sessCand {
 	cs := []sessCand{}
 	add := func(w int, op string, do func()) { cs = append(cs, sessCand{w, op, do}) }
+	if !g.burst {
+		// concurrent logins without run id, whatever the gated sessions are doing: the tables must be as before
+		m, bg := pick(g.rng, []int{8, 24, 48, 64}), pick(g.rng, []int{0, 2, 4, 8})
+		add(1, fmt.Sprintf("freshburst %d %d", m, bg), func() { g.burst = true })
+	}
 	if len(g.s) < 7 {
 		n := g.next + 1
 		// fresh login
@@ -841,6 +1170,18 @@ func (g *sessGenState) candidates() []sessCand {
 				}
 				if od {
 					add(8, fmt.Sprintf("waitold %d", k), func() { x.phase = "waited" })
+					if x.earlyRel {
+						// released before, the predecessor is done now: the waiter passes by itself
+						add(3, fmt.Sprintf("start %d", k), func() { x.phase = "running" })
+					}
+				} else {
+					// the old session is not done (running, or parked anywhere in its teardown; chains
+					// A <- B <- C included): Start must not be reachable — `disabled`, certainly not an ack
+					w := 1
+					if x.earlyRel {
+						w = 4
+					}
+					add(w, fmt.Sprintf("start %d", k), func() {})
 				}
 			}
 		case "waited":
@@ -910,12 +1251,16 @@ func (g *sessGenState) candidates() []sessCand {
 			if len(x.todo) > 0 {
 				add(8, fmt.Sprintf("closeproxy %d", k), func() {
 					// Go's map order picks; the simulation cannot know which: forget all (names are re-learnt lazily)
+					// (the smallest key, not Go's map order: the generator must be a function of the seed)
+					ks := []int{}
 					for p := range x.todo {
-						delete(x.todo, p)
-						if g.names[p] == k {
-							delete(g.names, p)
-						}
-						break
+						ks = append(ks, p)
+					}
+					sort.Ints(ks)
+					p := ks[0]
+					delete(x.todo, p)
+					if g.names[p] == k {
+						delete(g.names, p)
 					}
 				})
 			} else {
@@ -1003,7 +1348,23 @@ var sessScripts = [][]string{
 	// stcp: the second Run fails (visitor listener repeated) while the first is between Run and Add
 	{"login 1 1001 1", "add 1", "start 1", "login 2 1002 1", "add 2", "start 2", "regexist 1 4 stcp", "regexist 2 4 stcp",
 		"regrun 1", "regrun 2", "regadd 1", "regown 1", "regexist 2 4 stcp"},
+	// a chain of simultaneous re-logins A <- B <- C; the waiters are released while A, which owns two names,
+	// is parked at every stage of its teardown: nobody may be acknowledged before A has closed its done channel
+	{"login 1 2 0", "add 1", "start 1", "regexist 1 1 tcp", "regrun 1", "regadd 1", "regown 1", "regexist 1 2 stcp",
+		"regrun 1", "regadd 1", "regown 1", "login 2 2 0", "add 2", "login 3 2 0", "add 3", "early 3", "start 3",
+		"dispdone 1", "start 3", "early 2", "start 2", "start 3", "drain 1", "start 3", "closeproxy 1", "start 2",
+		"start 3", "closeproxy 1", "start 3", "done 1", "start 3", "waitold 2", "start 3", "start 2", "dispdone 2",
+		"drain 2", "start 3", "done 2", "waitold 3", "start 3", "del 1", "regexist 3 1 tcp", "regrun 3", "regadd 3",
+		"regown 3", "del 2"},
+	// bursts of logins without run id next to gated sessions in the middle of a hand-over
+	{"login 1 1001 1", "add 1", "start 1", "freshburst 48 4", "regexist 1 1 tcp", "regrun 1", "regadd 1", "regown 1",
+		"login 2 1001 0", "add 2", "freshburst 24 8", "dispdone 1", "drain 1", "freshburst 64 0", "closeproxy 1", "done 1",
+		"waitold 2", "start 2", "freshburst 8 2", "del 1"},
 }
+
+// concurrency classes of the direct generator test: few/many goroutines (below and above the number of
+// processors), short/long runs; the small ones travel to the Lean driver id by id
+var sessRandClasses = [][2]int{{8, 2000}, {16, 2000}, {64, 500}, {64, 2000}, {4, 1000}, {16, 256}, {32, 128}, {128, 32}}
 
 func sessGen(rng *rand.Rand, n int, emit func(string)) {
 	g := &sessGenState{rng: rng, emit: emit}
@@ -1015,7 +1376,16 @@ func sessGen(rng *rand.Rand, n int, emit func(string)) {
 			g.op("%s", op)
 		}
 	}
+	for _, c := range [][2]int{{64, 2000}, {8, 2000}, {16, 256}} {
+		g.op("randconc %d %d", c[0], c[1])
+	}
+	worlds := 0
 	for g.n < n {
+		worlds++
+		if worlds%12 == 0 {
+			c := pick(rng, sessRandClasses)
+			g.op("randconc %d %d", c[0], c[1])
+		}
 		g.reset()
 		wild := 0
 		switch rng.Intn(4) {
